@@ -187,14 +187,17 @@ pub fn counter_update_fn_%d(%s: u32) -> (r: Option<u32>)
         # the file is untouched, or its original with exactly one token per missing entry spliced in
         ("C03.splice", "final(w).fs[path@] == %s || is_token_insertion(%s, entries@, final(w).fs[path@])" % (c, c)),
         # success means edited, with every insertion counted
-        ("C05.count,C08.ok", "!res.unwrap().failure ==> is_token_insertion(%s, entries@, final(w).fs[path@])"
-         " && res.unwrap().num_inserted_references as int == n_missing_all(entries@)" % c),
+        ("C08.ok,C03.splice", "!res.unwrap().failure ==> is_token_insertion(%s, entries@, final(w).fs[path@])" % c),
+        ("C05.count", "!res.unwrap().failure ==> res.unwrap().num_inserted_references as int == n_missing_all(entries@)"),
         ("C05.count", "res.unwrap().num_inserted_references as int <= n_missing_all(entries@)"),
         ("C03.frame", "forall|p: Seq<char>| p != path@ && !is_temp(p) ==> (#[trigger] final(w).fs.dom().contains(p)) == old(w).fs.dom().contains(p)"),
         ("C03.frame", "forall|p: Seq<char>| p != path@ && !is_temp(p) ==> (#[trigger] final(w).fs[p]) == old(w).fs[p]"),
         ("C03.noop", "n_missing_all(entries@) == 0 ==> final(w).fs == old(w).fs && final(w).counter == old(w).counter"),
         # IDs: consecutive values of the counter, never wrapped, and the counter ends after the last one used
-        ("C01.ids", "final(w).fs[path@] == %s || final(w).fs[path@] == edited(%s, entries@, consec(old(w).counter, n_missing_all(entries@)))" % (c, c)),
+        # content: untouched, or the splice with the consecutive IDs (the IDs themselves are C01.ids below)
+        ("C03.splice,C07.complete", "final(w).fs[path@] == %s || final(w).fs[path@] == edited(%s, entries@, consec(old(w).counter, n_missing_all(entries@)))" % (c, c)),
+        # IDs: the values this file took from the counter are consecutive from its value on entry
+        ("C01.ids", "final(w).issued =~= old(w).issued + Seq::new((final(w).counter - old(w).counter) as nat, |j: int| (old(w).counter + j) as u32)"),
         ("C01.range", "old(w).counter <= final(w).counter <= old(w).counter + n_missing_all(entries@)"),
         ("C01.range", "final(w).fs[path@] != %s ==> final(w).counter == old(w).counter + n_missing_all(entries@)" % c),
         ("C01.nowrap", "final(w).counter <= u32::MAX"),
@@ -208,24 +211,25 @@ pub fn counter_update_fn_%d(%s: u32) -> (r: Option<u32>)
                " proof { lemma_n_missing_bounds(entries@, entries@.len() as int);"
                " if n_missing_all(entries@) == 0 { lemma_edited_noop(c, entries@, ids); assert(is_token_insertion(c, entries@, c)); } }" % c)
     rules.r3_for_filter(f, "it", [
-        "0 <= it.index@ <= entries@.len()", "it.index@ <= entries.len()",
-        "c == %s" % c, "positions_ok(c, entries@)",
-        ("C07.frame", "atomic_inv(*w)"), "!w.check_mode", "w.protected.contains(path@)",
-        "w.fs.dom().contains(scratch_file.path@)", "is_temp(scratch_file.path@)",
+        ("C17.bounds", "0 <= it.index@ <= entries@.len()"), ("C17.bounds", "it.index@ <= entries.len()"),
+        ("C03.splice", "c == %s" % c), ("C03.positions,C17.bounds", "positions_ok(c, entries@)"),
+        ("C07.frame", "atomic_inv(*w)"), ("C04.nowrite", "!w.check_mode"), ("C15.target", "w.protected.contains(path@)"),
+        ("C07.nonatomic", "w.fs.dom().contains(scratch_file.path@)"), ("C07.nonatomic", "is_temp(scratch_file.path@)"),
         ("C07.frame,C03.splice", "w.fs[path@] == c"),
         ("C04.frame", "w.orig == old(w).orig && w.protected == old(w).protected && w.files == old(w).files && w.alloc == old(w).alloc && w.check_mode == old(w).check_mode && w.handlers == old(w).handlers && w.stop_seen == old(w).stop_seen"),
         ("C07.intended", "w.intended == old(w).intended && !old(w).intended.dom().contains(path@)"),
         ("C03.frame", "forall|p: Seq<char>| p != path@ && !is_temp(p) ==> w.fs.dom().contains(p) == old(w).fs.dom().contains(p) && w.fs[p] == old(w).fs[p]"),
-        "scratch_file.file.path() == scratch_file.path@",
+        ("C07.nonatomic", "scratch_file.file.path() == scratch_file.path@"),
         ("C05.count", "created_entries as int == n_missing(entries@, it.index@)"),
-        "created_entries <= it.index@",
+        ("C17.bounds", "created_entries <= it.index@"),
         ("C03.splice", "unwritten_content_start_pos as int == cursor(entries@, it.index@)"),
-        "unwritten_content_start_pos <= c.len()",
+        ("C03.splice,C17.bounds", "unwritten_content_start_pos <= c.len()"),
         ("C03.splice", "ids.len() == created_entries"),
         ("C03.splice,C07.complete", "scratch_file.file.accepted() == out(c, entries@, ids, it.index@)"),
         ("C01.ids", "forall|j: int| 0 <= j < ids.len() ==> ids[j] == first + j"),
         ("C01.range", "w.counter == first + created_entries"),
-        "first >= 1", "first == old(w).counter", "n_missing_all(entries@) > 0",
+        ("C01.ids", "w.issued =~= old(w).issued + Seq::new(created_entries as nat, |j: int| (first + j) as u32)"),
+        ("C01.range", "first >= 1"), ("C01.range", "first == old(w).counter"), ("C05.same", "n_missing_all(entries@) > 0"),
         ("C01.nowrap", "w.counter <= u32::MAX"),
     ], nth=0)
     f.before_stmt("let insert_pos = entry.position().character();", "proof { lemma_n_missing_mono(entries@, it.index@ + 1, entries@.len() as int);\n"
